@@ -124,6 +124,11 @@ def _work(chunk: List[Any]) -> Dict[str, Any]:
     out = dict(n=0, nontrivial=0, outcomes=set(), execs=0, viols=[], xtrans=0, xstates=0)
     per_sig: Dict[str, int] = {}
     out["histories"] = {}
+    try:
+        from mc import nondet as _nd
+        cap0 = _nd.CAP_HITS[0]
+    except Exception:
+        _nd, cap0 = None, 0
     for idx, w in enumerate(chunk):
         _RECENT.append(w)
         r = safe_check(_MOD, w)
@@ -238,6 +243,7 @@ def run(modname: str, tier: str, seed: int, workers: int) -> int:
                 histories[sg] = h
         for k in ("n", "nontrivial", "execs", "xtrans", "xstates"):
             agg[k] += r[k]
+        agg["caps_hit"] = agg.get("caps_hit", 0) + int(r.get("caps_hit", 0))
         agg["outcomes"] |= r["outcomes"]
         for sig, w, detail in r["viols"]:
             s = sigs.setdefault(sig, dict(count=0, world=None, detail=None))
@@ -354,7 +360,10 @@ def run(modname: str, tier: str, seed: int, workers: int) -> int:
         vacuous = f"only {len(agg['outcomes'])} distinct outcome(s) from {agg['n']} worlds"
     elif agg["nontrivial"] < 2:
         vacuous = f"only {agg['nontrivial']} non-trivial worlds"
-    caps = bounds.get("caps") or stats.get("caps")
+    caps = list(bounds.get("caps") or stats.get("caps") or [])
+    if agg.get("caps_hit"):
+        caps.append(f"the per-world cap on single-tie-group deviation plans was reached on {agg['caps_hit']} worlds; on those the stable "
+                    f"order, the all-reversed order and the first plans up to the cap were explored")
     ev = dict(
         property_id=pid, tier=tier, seed=seed, level="model_checking",
         coverage=dict(
